@@ -20,7 +20,7 @@ ASSUMPTIONS = ["numpy.fft is the reference DFT", "tolerance 1e-9*max(1,max|ref|)
 def s_case(draw, force_huge=False):
     big = draw(st.integers(0, 9)) == 0
     huge = force_huge or draw(st.integers(1, 2 ** 30)) % (60 if os.environ.get("VF_TIER") == "thorough" else 500) == 7
-    n = draw(st.sampled_from([131072, 100003, 2 ** 17 + 1, 2 ** 18 + 1, 300000, 2 ** 19 + 7])) if huge else \
+    n = draw(st.sampled_from([131072, 100003, 2 ** 17 + 1, 2 ** 18 + 1, 300000, 2 ** 19 + 7] + ([2 ** 21, 2 ** 21 + 1] if os.environ.get("VF_TIER") == "thorough" else []))) if huge else \
         draw(st.sampled_from([2048, 4096, 4095, 2047, 8191, 16384, 32768, 20011])) if big else draw(st.one_of(st.sampled_from(LENGTHS), st.integers(1, 300)))
     x = draw(s_signal(n=n, fams=["gauss", "unif", "smallint", "spike", "const", "lead0", "alt", "periodic", "sorted", "sym"]))
     # units: amplitudes over 18 decades; "weakq": an O(1) real waveform with a quadrature component of 1e-12..1e-6
@@ -61,7 +61,7 @@ def e_case(c):
         x = CLS[m.cls](s_.copy(), None if n_ is None else n_.copy())
         m = Model(m.cls, m.npol, s_, n_)
     N = m.N
-    g = Guard()
+    g = Guard(protect=not (N >= 2 ** 17 and c["x"]["sig"]["seed"] % 2))      # long records: half of them as ordinary writeable arrays (snapshot comparison only)
     g.add_signal("x", x)
     snap = {k: (v.tobytes() if isinstance(v, np.ndarray) else v) for k, v in gv.__dict__.items()}
     parts = [("signal", m.s)] + ([("noise", m.n)] if m.n is not None else [])
